@@ -32,6 +32,41 @@ type jnode struct {
 	Args []*jnode `json:"args"`
 }
 
+var jsonOpSym = map[string]string{"and": "&&", "or": "||", "eq": "==", "not": "!=", "gt": ">", "gte": ">=", "lt": "<", "lte": "<=", "bor": "|", "band": "&",
+	"plus": "+", "minus": "-", "div": "/", "mul": "*", "mod": "%"}
+
+// text prints the meaning of a JSON tree as GRL, fully parenthesised (operands grouped exactly as nested, several operands
+// fold to the left, single-operand not is negation).
+func (n *jnode) text() string {
+	switch n.J {
+	case "num":
+		return strconv.FormatInt(n.N, 10)
+	case "bool":
+		return strconv.FormatBool(n.V)
+	case "str", "obj":
+		return n.P
+	case "const":
+		switch n.Val.T {
+		case "i":
+			return strconv.FormatInt(n.Val.N, 10)
+		case "b":
+			return fmt.Sprint(n.Val.V)
+		case "s":
+			return strconv.Quote(n.Val.S)
+		}
+	case "op":
+		if n.Op == "not" && len(n.Args) == 1 {
+			return "!(" + n.Args[0].text() + ")"
+		}
+		out := n.Args[0].text()
+		for _, a := range n.Args[1:] {
+			out = "(" + out + " " + jsonOpSym[n.Op] + " " + a.text() + ")"
+		}
+		return out
+	}
+	panic("json node " + n.J)
+}
+
 func (n *jnode) value() interface{} {
 	switch n.J {
 	case "num":
@@ -69,7 +104,7 @@ type jsonCase struct {
 	Str   string `json:"str"`
 	Shape string `json:"shape"`
 	Num   string `json:"num"`
-	Form  string `json:"form"`
+	Form  string `json:"form"` // jsonnum: operand form; jsontree: "" (call action), "set" (set action), "text" (condition / actions as GRL text)
 	Elems []struct {
 		K    string `json:"k"`
 		Desc string `json:"desc"`
@@ -445,11 +480,26 @@ func cmdJSONReplay(args []string) {
 			put := map[string]string{"i": "S.PutI", "r": "S.PutR", "b": "S.PutB"}[c.Want.T]
 			rule := J{"name": name, "desc": desc, "salience": sal, "when": "true",
 				"then": []interface{}{J{"call": []interface{}{put, key, c.JSON.value()}}, retract}}
+			switch c.Form {
+			case "set":
+				target := map[string]string{"i": "S.I", "r": "S.R", "b": "S.B"}[c.Want.T] + "[" + strconv.FormatInt(key, 10) + "]"
+				rule["then"] = []interface{}{J{"set": []interface{}{target, c.JSON.value()}}, retract}
+			case "text":
+				act := put + "(" + strconv.FormatInt(key, 10) + ", " + c.JSON.text() + ")"
+				if key%2 == 0 {
+					act += ";"
+				}
+				rule["then"] = []interface{}{act, "Retract(\"" + name + "\")" + map[bool]string{true: ";", false: ""}[key%3 == 0]}
+			}
 			p := pending{key: key, rule: rule, c: c, raw: raw, desc: desc, sal: sal}
 			if c.Want.T == "b" {
 				// the same tree as the condition of a companion rule
 				name2 := "D" + strconv.FormatInt(key, 10)
-				p.cond = J{"name": name2, "desc": desc, "salience": sal, "when": c.JSON.value(),
+				var when interface{} = c.JSON.value()
+				if c.Form == "text" {
+					when = c.JSON.text()
+				}
+				p.cond = J{"name": name2, "desc": desc, "salience": sal, "when": when,
 					"then": []interface{}{J{"call": []interface{}{"S.PutI", -key, 1}}, J{"call": []interface{}{"Retract", J{"const": name2}}}}}
 			}
 			jobs = append(jobs, p)
